@@ -290,7 +290,8 @@ PROBE_LIMIT, HISTORY_LIMIT = 12.0, 3.0
 
 
 def run_probe_only(probe):
-    return {"digest": ho.run_op(probe, PROBE_LIMIT)}
+    dg = ho.run_op(probe, PROBE_LIMIT)
+    return {"digest": dg, "tolerance_after_probe": tolerance_state()}
 
 
 def run_history_then_probe(history, probe):
@@ -372,7 +373,14 @@ def check(case, ctx):
     # behind any other pair of values is a different defect, not the recorded one
     import math
     consistent = tol[0] >= 0 and abs(tol[1] - math.sqrt(tol[0])) <= 1e-9 * max(tol[1], 1e-300)
-    explained = c is not None and c["digest"] == b["digest"] and consistent
+    # ... and it must be the VALUE of the tolerance that matters, not merely the fact that one is already defined: forcing the tolerance
+    # the probe's own design sets in a fresh process must reproduce the fresh answer
+    own = a.get("tolerance_after_probe", [-1.0, -1.0])
+    value_matters = True
+    if own[0] >= 0:
+        d4, nd = child(lambda: run_probe_with_forced_tolerance(probe, own))
+        value_matters = d4 is not None and d4["digest"] == a["digest"]
+    explained = c is not None and c["digest"] == b["digest"] and consistent and value_matters
     ctx.violation("history_changes_result",
                   f"probe {probe['k']} gives {json.dumps(a['digest'])[:250]} alone but {json.dumps(b['digest'])[:250]} after {len(history)} operations "
                   f"(tolerance left behind: {tol}); probe={json.dumps(probe)[:400]}",
